@@ -34,6 +34,7 @@ func checkC03(c *Ctx) {
 	c.typeTables()
 	c.flagBitTables()
 	c.willFlagSiblings()
+	c.lpHelpersAcceptSpecLengths()
 }
 
 // decodeLoopConservation: B3.
@@ -307,6 +308,10 @@ func (c *Ctx) setQoSMarksDirtyWhenIDAppears() {
 func (c *Ctx) dirtyDiscipline() {
 	c.viewsOfDecodeBuffer()
 	c.setQoSMarksDirtyWhenIDAppears()
+	if c.R.Property == "C03" {
+		// a clone that keeps the image of the original: a setter on one of them rewrites the bytes the other one re-encodes
+		c.cloneIsDeep()
+	}
 	eff := c.Effects()
 	sp := c.P.SPkgs["message"]
 	// fields read by the encoders (Encode, encode, encodeMessage, msglen) per struct
